@@ -16,6 +16,12 @@ GHOST_DEFS
 /* position of the cursor counted from the end of the (at most three entry) list; branch-free: decreases clauses must be side-effect free */
 #define SC_RANK(p) ((size_t)((p) != NULL) + (size_t)(((p) != NULL) & ((p) != g_n3)) + (size_t)(((p) != NULL) & ((p) != g_n3) & ((p) != g_n2)))
 
+/* cover goals ask for a chunk of more than one block (unwound units) resp. more than two blocks (inductive units) */
+#ifdef VERIF_SCAN_MAXLEN
+#define SC_BIG BUF_SIZE
+#else
+#define SC_BIG (2 * BUF_SIZE + 1)
+#endif
 typedef struct {
     zckCtx any; int err0, ctype, htype, n_nodes; zckChunk anyc[3];
     int cctx_live, cchunk_typed, cfull_live, cfull_typed, watch_full;
@@ -71,11 +77,11 @@ static zckCtx *mk_scan(IN_sc *in) {
     return zck;
 }
 #define SC_COVERS(r, zck, in) \
-    V_COVER(r == 1 && !zck->header_only && !zck->has_uncompressed_source && in.n_nodes == 2 && g_n1->length > 0 && g_n2->comp_length > 2 * BUF_SIZE + 1); \
+    V_COVER(r == 1 && !zck->header_only && !zck->has_uncompressed_source && in.n_nodes == 2 && g_n1->length > 0 && g_n2->comp_length > SC_BIG); \
     V_COVER(r == 1 && !zck->header_only && g_n1->length == 0 && in.n_nodes == 2); \
     V_COVER(r == -1 && !zck->header_only && !zck->has_uncompressed_source && in.n_nodes == 2 && in.watch_full && g_hu_final == in.hu_final0 + 1); \
     V_COVER(r == -1 && in.n_nodes == 2 && g_n1->valid == 1 && g_n2->valid == -1); \
-    V_COVER(r == -1 && in.n_nodes == 2 && g_n1->valid == -1 && g_n2->valid == 1 && g_rd_bytes[G_IX(zck->fd)] < in.rd0[G_IX(zck->fd)] + g_scan_total && g_scan_total > in.rd0[G_IX(zck->fd)] - in.rd0[G_IX(zck->fd)]); \
+    V_COVER(r == -1 && in.n_nodes == 2 && g_n1->valid == -1 && g_n2->valid == 1 && g_scan_total > 0 && g_rd_bytes[G_IX(zck->fd)] - in.rd0[G_IX(zck->fd)] < g_scan_total); \
     V_COVER(r == 1 && zck->header_only && in.n_nodes == 2); V_COVER(r == 1 && zck->has_uncompressed_source && !zck->header_only); \
     V_COVER(r == 0 && in.err0 == 0 && zck->mode == ZCK_MODE_READ && zck->data_offset != 0 && g_rd_bytes[G_IX(zck->fd)] > in.rd0[G_IX(zck->fd)])
 
@@ -104,7 +110,7 @@ void h_zck_validate_data_checksum(void) {
     IN_sc in = nondet_IN_sc();
     zckCtx *zck = mk_scan(&in);
     int r = zck_validate_data_checksum(zck);
-    V_COVER(r == 1 && !zck->has_uncompressed_source && in.n_nodes == 2 && g_n1->comp_length > 0 && g_n2->comp_length > 2 * BUF_SIZE + 1 && in.watch_full);
+    V_COVER(r == 1 && !zck->has_uncompressed_source && in.n_nodes == 2 && g_n1->comp_length > 0 && g_n2->comp_length > SC_BIG && in.watch_full);
     V_COVER(r == -1 && !zck->has_uncompressed_source); V_COVER(r == 1 && zck->has_uncompressed_source);
     V_COVER(r == 0 && in.err0 == 0 && zck->mode == ZCK_MODE_READ && !zck->has_uncompressed_source && g_rd_bytes[G_IX(zck->fd)] > in.rd0[G_IX(zck->fd)]);
 }
